@@ -299,13 +299,15 @@ pub fn profile(prop: &str, tier: &str) -> Profile {
                 (K::Recv, 4),
                 (K::TrySend, 2),
                 (K::TryRecv, 2),
+                (K::SendTimeout, 1),
+                (K::RecvTimeout, 1),
                 (K::Drain, 1),
                 (K::Close, 1),
                 (K::DropH, 1),
                 (K::Yield, 3),
             ]),
             pays: droppable(),
-            max_sched: 128,
+            max_sched: 200,
             script_bias: 1,
             ..base
         },
